@@ -188,6 +188,24 @@ func c12Reference(b []byte) (map[uint32]*c12Model, bool) {
 	}
 }
 
+// c12DialInProgress: some goroutine of the client is inside a dial (not merely waiting for the client's lock).
+func c12DialInProgress() bool {
+	for _, g := range peer.LibraryGoroutines() {
+		if strings.Contains(g, "http2.(*Dialer).Dial") || strings.Contains(g, "http2.(*Conn).Handshake") || strings.Contains(g, "http2.(*Dialer).tryDial") {
+			return true
+		}
+	}
+	return false
+}
+
+func c12Dump() string {
+	dump := ""
+	for _, g := range speer.ClientGoroutines() {
+		dump += firstLines(g, 9) + "\n"
+	}
+	return dump
+}
+
 func c12Run(c c12Case) Outcome {
 	env, err := speer.NewEnv(http2.ClientOpts{PingInterval: time.Hour, MaxResponseTime: c12Timeout}, speer.ConnPlan{BigRecords: c.BigRec})
 	if err != nil {
@@ -333,6 +351,9 @@ func c12Run(c c12Case) Outcome {
 		time.Sleep(300 * time.Microsecond)
 	}
 	desc := fmt.Sprintf("server stream of %d octets (%d delivered, %d mutations, adversary %q at %d) then %s, closeAt=%d failw=%d faillate=%d", len(stream), n, len(c.Muts), c.Adv, c.AdvAt, c.End, c.CloseAt, c.FailW, c.FailLate)
+	if !allDone() && c12DialInProgress() {
+		return Outcome{Inconcl: "a request is still waiting for a connection being dialled (machine too slow)"}
+	}
 	if !allDone() {
 		gs := speer.ClientGoroutines()
 		dump := ""
@@ -449,7 +470,13 @@ func c12Run(c c12Case) Outcome {
 		for i, fc := range fcalls {
 			tag := fmt.Sprintf("f%d", i)
 			if !fc.Finished() {
-				return fail("follow-up-unresolved", "%s: follow-up request %s never resolved", desc, tag)
+				// MaxResponseTime starts when a request is handed to a connection; dialing one (TLS and HTTP/2
+				// handshakes, under the client's lock) is outside it. A dial still in progress on a busy machine
+				// is not a stuck request (false alarm seen under load, DESIGN section 10).
+				if c12DialInProgress() {
+					return Outcome{Inconcl: "follow-up request still waiting for a connection being dialled (machine too slow)"}
+				}
+				return fail("follow-up-unresolved", "%s: follow-up request %s never resolved; client goroutines:\n%s", desc, tag, c12Dump())
 			}
 			if fc.Err == nil && (!hasTag(fc, tag) || string(fc.Body) != string(peer.BodyFor(tag, 12))) {
 				return fail("follow-up-wrong-response", "%s: follow-up request %s got fields %v body %q: a stale resolution or another request's response", desc, tag, fc.Fields, headStr(fc.Body))
@@ -517,9 +544,19 @@ func c12Gen(t *rapid.T) c12Case {
 	return c
 }
 
+// ---- bounded-exhaustive lane: every cut offset of one recorded response stream (two requests, a split header block,
+// a shared HPACK entry, bodies of 5 and 900 octets) followed by close, reset and silence. Offsets past the end of the
+// stream wrap around (CutAt is taken modulo its length + 1), so a few short prefixes are run twice.
+const c12EnumCuts = 1120
+
+func c12EnumAt(i int) c12Case {
+	return c12Case{N: 2, Bodies: []int{0, 10}, RespLen: []int{5, 900}, Splits: []int{9}, CutAt: i / 3, End: []string{"close", "reset", "silence"}[i%3], Follow: i % 2}
+}
+
 func TestC12(t *testing.T) {
 	s := newSuite(t, "C12",
 		"1..4 requests (bodies 0..70000) through RoundTrip with MaxResponseTime 250 ms to a scripted TLS server whose well-formed response stream (split header blocks, DATA chunked, shared HPACK entries) is recorded and then: delivered up to any octet (incl. inside a frame) or entirely; mutated frame-wise (duplicate, delete, swap, bit flip, lying length, type/flags/stream-id change); or extended with a scripted adversary at any frame position (RST_STREAM, GOAWAY, oversized frame, HPACK garbage, unsolicited PUSH_PROMISE, DATA on an idle stream, WINDOW_UPDATE overflow, invalid SETTINGS, unknown frame type, 300 or 700 PINGs); followed by silence, close or reset; or with the client's own writes failing from any octet, counted from the start or from the moment the server's stream is delivered (so that replies hit the failure); or with Client.Close() fired before the answers, after them, or concurrently with further RoundTrips. Oracle: every RoundTrip returns exactly once within MaxResponseTime plus a margin (a miss is reported with the client's goroutine dump); a success carries exactly the complete well-formed response an independent parser (x/net Framer + strict reference HPACK) finds on that stream in the delivered octets; nothing succeeds after Close without an answer; a follow-up batch on a fresh connection gets its own responses; after Close no loop of the client remains; the process survives (crash journal). Non-trivial = cut inside a frame, a mutation, an adversary, or Close racing requests; distinct by case hash.")
 	defer s.finish()
 	runLane(s, Lane[c12Case]{Name: "faults", Journal: true, Quick: 500, Thor: 30000, Gen: c12Gen, Run: c12Run})
+	runEnum(s, EnumLane[c12Case]{Name: "cuts", Journal: true, N: 3 * c12EnumCuts, At: c12EnumAt, Run: c12Run, QuickStride: 5, ThorStride: 1})
 }
